@@ -369,3 +369,19 @@ contract(F03 + "Stmt_Function_Stmt.match", types=dict(string="str"), returns="tu
         "arguments_are_the_content_of_the_parentheses": "implies(result is not None, (nonnull(result)[1] is not None) == (" + _SF + "[" + _SF + ".find('(') + 1:-1].strip() != '') and "
             "implies(nonnull(result)[1] is not None, rule_text(nonnull(nonnull(result)[1])) == " + _SF + "[" + _SF + ".find('(') + 1:-1].strip()))",
     }, raises={"*": {}}, serves=["C02"])
+
+# Suffix.match - "RESULT(name) [binding]" or "binding RESULT(name)": both parts go to their rules whole (C02; the printed
+# order is always result first - KF-C02-D68 - which is tostr's business, not match's)
+_SU = "string[6:].lstrip()"
+_SUR = _SU + "[" + _SU + ".find(')') + 1:].lstrip()"
+_SB = "string[:string.rfind('(')].rstrip()"
+contract(F03 + "Suffix.match", types=dict(string="str"), returns="tuple[ref:Base,ref:Base?]?", modifies=["rule_evals"],
+    calls={"Result_Name": "proto:operand_rule", "Proc_Language_Binding_Spec": "proto:operand_rule"},
+    ensures={
+        "result_first": "implies(result is not None and string[:6].upper() == 'RESULT', " + _SU + ".startswith('(') and ')' in " + _SU + " and "
+            "rule_text(nonnull(result)[0]) == " + _SU + "[1:" + _SU + ".find(')')].strip() and rule_text(nonnull(result)[0]) != '' and "
+            "(nonnull(result)[1] is not None) == (" + _SUR + " != '') and implies(nonnull(result)[1] is not None, rule_text(nonnull(nonnull(result)[1])) == " + _SUR + "))",
+        "binding_first": "implies(result is not None and string[:6].upper() != 'RESULT', string.endswith(')') and '(' in string and "
+            "rule_text(nonnull(result)[0]) == string[string.rfind('(') + 1:-1].strip() and rule_text(nonnull(result)[0]) != '' and " + _SB + "[-6:].upper() == 'RESULT' and "
+            "nonnull(result)[1] is not None and rule_text(nonnull(nonnull(result)[1])) == " + _SB + "[:-6].rstrip() and " + _SB + "[:-6].rstrip() != '')",
+    }, raises={"*": {}}, serves=["C02"])
